@@ -410,12 +410,18 @@ where
     ) -> StdResult<(), Self::Error> {
         // Create a snapshot for disc-based implementations
         let snapshot = self.try_create_snapshot().await?;
+        #[cfg(sos_verif)]
+        sos_core::verif::probe("fs_log::replace_all::snapshot_created");
 
         // Erase the file content and in-memory merkle tree
         self.clear().await?;
+        #[cfg(sos_verif)]
+        sos_core::verif::probe("fs_log::replace_all::cleared");
 
         // Apply the new events
         self.patch_unchecked(&diff.patch).await?;
+        #[cfg(sos_verif)]
+        sos_core::verif::probe("fs_log::replace_all::patched");
 
         // Verify against the checkpoint
         let computed = self.tree().head()?;
@@ -532,6 +538,8 @@ where
             .truncate(true)
             .open(&self.data)
             .await?;
+        #[cfg(sos_verif)]
+        sos_core::verif::probe("fs_log::truncate::emptied");
 
         file.seek(SeekFrom::Start(0)).await?;
 
